@@ -196,10 +196,15 @@ pub fn policy_for_union() -> lightning_signer::policy::simple_validator::SimpleP
 
 impl Machine {
     pub fn new(cloud: bool, anchors: bool) -> Machine {
+        Self::new_mode(cloud, false, anchors)
+    }
+
+    /// `backup`: the node persists through BackupPersister(main, backup) (see World::new_backup)
+    pub fn new_mode(cloud: bool, backup: bool, anchors: bool) -> Machine {
         let mut cfg = WorldCfg::default_testnet();
         cfg.policy = policy_for_union();
         let vf: Arc<dyn ValidatorFactory> = Arc::new(SimpleValidatorFactory::new_with_policy(cfg.policy.clone()));
-        let mut w = if cloud { World::new_cloud(cfg, vf) } else { World::new_with_factory(cfg, vf) };
+        let mut w = if backup { World::new_backup(cfg, vf) } else if cloud { World::new_cloud(cfg, vf) } else { World::new_with_factory(cfg, vf) };
         let mut st = vec![];
         for i in 0..2u64 {
             let mut spec = ChanSpec::basic(i + 1);
@@ -678,6 +683,10 @@ impl Machine {
             }
             Op::CrossPay { .. } => unreachable!("macro op expanded above"),
             Op::Restart => {
+                if self.w.backup.is_some() {
+                    // a restart would drop the composite persister: not modelled in backup mode
+                    return vec![Self::skip("restart")];
+                }
                 let r = self.w.restart();
                 if !r.is_ok() {
                     self.dead = true;
